@@ -28,15 +28,14 @@ def search(start, enabled, step, canon, check, depth, res, snapshot=None, prefix
     """BFS from the state reached by ``prefix`` (a history).  Returns dict with closure info."""
     live, model = rebuild(start, step, list(prefix))
     seen = {canon(live, model)}
-    frontier = collections.deque([list(prefix)])
+    frontier = collections.deque([(list(prefix), model)])
     res.states += 1
     closed = True
     max_depth = 0
     d = 0
     while frontier and d < depth:
         nxt = collections.deque()
-        for hist in frontier:
-            live0, model0 = rebuild(start, step, hist)
+        for hist, model0 in frontier:
             for op in enabled(model0):
                 live, model = rebuild(start, step, hist)
                 pre = snapshot(live) if snapshot else None
@@ -57,7 +56,7 @@ def search(start, enabled, step, canon, check, depth, res, snapshot=None, prefix
                 if k not in seen:
                     seen.add(k)
                     res.states += 1
-                    nxt.append(hist + [op])
+                    nxt.append((hist + [op], model2))
                     max_depth = max(max_depth, len(hist) + 1 - len(prefix))
                     if on_state:
                         on_state(live, model2, hist + [op])
